@@ -35,6 +35,14 @@ def _sizes(L, J, cap):
     return [v for v in out if v <= cap]
 
 
+def _pairs(out):
+    # distinct orthogonal wavelets along columns and rows (filters handed over as 4-tuples)
+    for w in ('pair:db2|db3', 'pair:haar|db2', 'pair:sym4|db2'):
+        L = D.filt_len(w)
+        out.append(dict(dim=2, wave=w, J=1, H=L + 2, W=L + 4))
+        out.append(dict(dim=2, wave=w, J=2, H=2 * L, W=2 * L + 4))
+
+
 def configs(tier, seed):
     out = []
     if tier == 'quick':
@@ -51,6 +59,7 @@ def configs(tier, seed):
                     out.append(dict(dim=2, wave=w, J=J, H=s, W=s))
                     if s + 2 ** J <= 16:
                         out.append(dict(dim=2, wave=w, J=J, H=s, W=s + 2 ** J))
+        _pairs(out)
     else:
         for w in pywt.wavelist(kind='discrete'):
             wv = pywt.Wavelet(w)
@@ -67,6 +76,7 @@ def configs(tier, seed):
                         out.append(dict(dim=2, wave=w, J=J, H=s, W=s))
                         if s + 2 ** J <= 16:
                             out.append(dict(dim=2, wave=w, J=J, H=s + 2 ** J, W=s))
+        _pairs(out)
         out.append(dict(dim=1, wave='db2', J=1, N=8, energy=True))
         out.append(dict(dim=1, wave='haar', J=2, N=8, energy=True))
     return out
